@@ -25,6 +25,10 @@ type schemaCase struct {
 	// and the first one refers to them across files.
 	SplitPkg string   `json:"split_pkg,omitempty"`
 	Moved    []string `json:"moved,omitempty"`
+	// Raw: a hand-written source instead of a model (Model is nil)
+	Raw        string        `json:"raw,omitempty"`
+	RawPackage string        `json:"raw_package,omitempty"`
+	Meta       *e2.InputMeta `json:"meta,omitempty"`
 }
 
 // source is the single-document rendering (what the reference validator reads).
@@ -32,8 +36,11 @@ func (c schemaCase) source() string { return smodel.Render(c.Format, c.Model) }
 
 // inputs are the pipeline inputs of the case.
 func (c schemaCase) inputs() []e2.InputSpec {
+	if c.Raw != "" {
+		return []e2.InputSpec{{Format: c.Format, Package: c.RawPackage, Source: c.Raw, Meta: c.Meta}}
+	}
 	if c.SplitPkg == "" || c.Format != smodel.OpenAPI {
-		return []e2.InputSpec{{Format: c.Format, Package: c.Model.Package, Source: c.source()}}
+		return []e2.InputSpec{{Format: c.Format, Package: c.Model.Package, Source: c.source(), Meta: c.Meta}}
 	}
 	moved := map[string]bool{}
 	for _, n := range c.Moved {
